@@ -386,7 +386,8 @@ def trace_phase(chk, tier, w):
         else:
             strip = lambda s: {k: s[k] for k in ("filters", "fform", "form", "parms", "length", "content", "allows", "dc")}
             chk.violation("C09:" + v["v"], {"op": rec["op"], "stream": rec["sid"], "arg": rec["arg"], "res": rec["res"],
-                                            "disturbed_by": rec["dk"], "fresh_thread_agrees": rec["fresh_same"],
+                                            "last_disturbance_of_the_thread": rec["dk"], "right_before_this_call": rec["dnow"],
+                                            "fresh_thread_agrees": rec["fresh_same"] and not any(s["hs"] for s in rec["post"]),
                                             "pre": [strip(s) for s in prev["post"]] if prev and rec["op"] != "reset" else [],
                                             "post": [strip(s) for s in rec["post"]]})
     # (B) the recorded set must contain the interesting transitions
@@ -402,9 +403,9 @@ def trace_phase(chk, tier, w):
             stats[rec["op"]] += 1
         if rec["op"].startswith("doc_"):
             stats["doc_ops"] += 1
-        stats["calls_after_disturbance"] += rec["dk"] != "none"
+        stats["calls_after_disturbance"] += rec["dnow"]
         for j, (a, b) in enumerate(zip(prev["post"], rec["post"])):
-            stats["predictor_decodes_after_disturbance"] += rec["dk"] in DIRTYING and bool(b["filters"]) and \
+            stats["predictor_decodes_after_disturbance"] += rec["dnow"] and rec["dk"] in DIRTYING and bool(b["filters"]) and \
                 any(p["present"] and p["pred"] >= 10 for p in b["parms"])
             if rec["op"] in ("decompress", "doc_decompress") and rec["sid"] in (0, j + 1) and not a["filters"] \
                     and a["fform"] == "array" and a["content"]:
